@@ -69,3 +69,18 @@ for k in range(4):
        "(declare-const d Int)\n"
        "(assert (= d (- (* (+ xl (* xh p)) t) (+ (* xl t) (* xh t1)))))   ; x*t - split product\n"
        "(assert (not (= d (* (* xh m) %d))))   ; ... is the multiple xh*m of q\n(check-sat)\n" % (qs[k], qs[k]))
+
+# L6/L7 (C10/C04, reference b*c product): with the table invariant P1 == 2^32, P2 == 2^(32+h) (mod q) the recombination is
+# congruent to the exact accumulator value, and each step term is congruent to x*y for a layout-c operand (y_hi == y_lo*2^32).
+for k in range(4):
+    z3("q120_bbc_recombination_congruent_lane%d" % k, "s0 + (s1 mod 2^h)*P1 + (s1 div 2^h)*P2 == s0 + 2^32*s1 (mod q_%d) when P1 == 2^32, P2 == 2^32*2^h (mod q)" % (k + 1),
+       "(declare-const s0 Int)(declare-const sl Int)(declare-const sh Int)(declare-const p Int)(declare-const P1 Int)(declare-const P2 Int)(declare-const m1 Int)(declare-const m2 Int)\n"
+       "(assert (and (>= s0 0) (>= sl 0) (>= sh 0) (>= p 1)))\n"
+       "(assert (= %d (+ P1 (* m1 %d))))            ; P1 == 2^32 (mod q)\n"
+       "(assert (= (* %d p) (+ P2 (* m2 %d))))      ; P2 == 2^32 * p (mod q), p stands for 2^h\n"
+       "(declare-const d Int)\n(assert (= d (- (+ s0 (* %d (+ sl (* sh p)))) (+ s0 (* sl P1) (* sh P2)))))\n"
+       "(assert (not (= d (* %d (+ (* sl m1) (* sh m2))))))\n(check-sat)\n" % (1 << 32, qs[k], 1 << 32, qs[k], 1 << 32, qs[k]))
+    z3("q120_bbc_term_congruent_lane%d" % k, "x_lo*y_lo + x_hi*y_hi == (x_lo + 2^32*x_hi)*y_lo (mod q_%d) when y_hi == y_lo*2^32 (mod q)" % (k + 1),
+       "(declare-const xl Int)(declare-const xh Int)(declare-const yl Int)(declare-const yh Int)(declare-const m Int)\n"
+       "(assert (= (* yl %d) (+ yh (* m %d))))\n(declare-const d Int)\n"
+       "(assert (= d (- (* (+ xl (* %d xh)) yl) (+ (* xl yl) (* xh yh)))))\n(assert (not (= d (* (* xh m) %d))))\n(check-sat)\n" % (1 << 32, qs[k], 1 << 32, qs[k]))
